@@ -120,7 +120,7 @@ def variants():
 def full_document(schema_obj, dialect, all_refs):
     """a self-contained document a validator can resolve references in"""
     d = schema_obj.to_dict()
-    if all_refs and dialect.definitions_root_pointer == "#/components/schemas":
+    if dialect.definitions_root_pointer == "#/components/schemas" and "$defs" in d:
         defs = d.pop("$defs", {})
         d = {**d, "components": {"schemas": defs}}
     return d
